@@ -83,7 +83,7 @@ PROPERTIES = {
         clause="every parameter field is consulted by subs/free symbols/sampler/printer/moment/cf/mgf; scipy sampler arguments denote the moment side's law; discrete "
                "enumerations agree; float parameters become exact rationals; cf(t) == mgf(i t) as rational functions. NOT decided: any moment formula."),
     "C09": dict(
-        specs=[S("GUARD"), S("ORIGGUARD"), S("AFTERLOOP"), S("IMPLIED"), S("MARKLAST")],
+        specs=[S("GUARD"), S("ORIGGUARD"), S("AFTERLOOP"), S("IMPLIED"), S("MARKLAST"), S("STATE", r"cli/common|program/condition|classmutable")],
         clause="only the source guard is marked as guard; the termination indicator derives from the source guard; after-loop arms condition on termination and take the "
                "limit; the conditional moment is a ratio over one negated-guard indicator. NOT decided: limits, divergence."),
     "C12": dict(
